@@ -20,8 +20,15 @@ def load_all():
     from pyvc import api
     mods = sorted(glob.glob(os.path.join(ROOT, 'contracts', 'c*.py')))
     for m in mods:
-        importlib.import_module('contracts.' + os.path.basename(m)[:-3])
+        name = os.path.basename(m)[:-3]
+        try:
+            importlib.import_module('contracts.' + name)
+        except Exception:
+            LOAD_ERRORS[name] = traceback.format_exc()[-1500:]
     return api.REG
+
+
+LOAD_ERRORS = {}
 
 
 def _work(job):
@@ -67,6 +74,68 @@ def _work(job):
             return kind, name, r
     except Exception as ex:
         return kind, name, {'error': "%s: %s\n%s" % (type(ex).__name__, ex, traceback.format_exc()[-2000:]), 'crash': True}
+
+
+def _child(job, conn):
+    try:
+        conn.send(_work(job))
+    except Exception as ex:
+        try:
+            conn.send((job[0], job[1], {'error': 'worker failed: %r' % ex, 'crash': True}))
+        except Exception:
+            pass
+    finally:
+        conn.close()
+
+
+JOB_TIMEOUT = {'quick': {'unit': 420, 'lemma': 240, 'canary': 300, 'bounded': 600},
+               'thorough': {'unit': 1500, 'lemma': 600, 'canary': 900, 'bounded': 1800}}
+
+
+def run_jobs(jobs, njobs, tier):
+    """own scheduler: one process per job, hard wall-clock limit per job (solver timeouts are not always honoured)"""
+    ctx = mp.get_context('fork')
+    pending = list(jobs)
+    # long jobs first
+    order = {'bounded': 0, 'unit': 1, 'canary': 2, 'lemma': 3}
+    pending.sort(key=lambda j: order.get(j[0], 9))
+    running = []
+    results = []
+    while pending or running:
+        while pending and len(running) < njobs:
+            job = pending.pop(0)
+            pc, cc = ctx.Pipe(duplex=False)
+            p = ctx.Process(target=_child, args=(job, cc))
+            p.start()
+            cc.close()
+            running.append((job, p, pc, time.time()))
+        still = []
+        for job, p, pc, t0 in running:
+            done = False
+            if pc.poll(0):
+                try:
+                    results.append(pc.recv())
+                except EOFError:
+                    results.append((job[0], job[1], {'error': 'worker died', 'crash': True}))
+                done = True
+            elif not p.is_alive():
+                if pc.poll(0.2):
+                    results.append(pc.recv())
+                else:
+                    results.append((job[0], job[1], {'error': 'worker exited with %s' % p.exitcode, 'crash': True}))
+                done = True
+            elif time.time() - t0 > JOB_TIMEOUT[tier][job[0]]:
+                p.kill()
+                results.append((job[0], job[1], {'timeout': True, 'secs': time.time() - t0}))
+                done = True
+            if done:
+                p.join(1)
+                os.system("pkill -P %d >/dev/null 2>&1" % p.pid) if p.pid else None
+            else:
+                still.append((job, p, pc, t0))
+        running = still
+        time.sleep(0.05)
+    return results
 
 
 def load_known():
@@ -132,6 +201,10 @@ def check(args):
         traceback.print_exc()
         print("CHECKER-CRASH while loading contracts")
         return 3
+    for name, err in LOAD_ERRORS.items():
+        if name.lower().startswith(pid.lower()):
+            print("CHECKER-CRASH contract module %s failed to import:\n%s" % (name, err))
+            return 3
     both = tier == 'thorough'
     opts = {'seed': seed, 'both': both, 'tier': tier, 'cross_n': 30 if tier == 'quick' else 150}
     jobs = []
@@ -157,10 +230,7 @@ def check(args):
     if not jobs:
         print("no checks registered for", pid)
         return 3
-    results = []
-    with mp.Pool(min(args.jobs, max(1, len(jobs)))) as pool:
-        for res in pool.imap_unordered(_work, jobs, chunksize=1):
-            results.append(res)
+    results = run_jobs(jobs, args.jobs, tier)
     return report.finish(pid, tier, seed, results, reg, assumed, time.time() - t0, load_known(), match_known)
 
 
